@@ -410,6 +410,59 @@ def options_reach_library(res, prog, c):
             res.violation('C20.7', 'C20.7|%s' % fld, f, f.line, 'option field `%s` is %s: on some path to process_minidump_with_options it is ignored' % (fld, 'only read under a branch' if reads.get(fld) else 'never read'))
 
 
+def destinations(res, prog, c):
+    """C20.8: the report destinations are files that hold nothing but this run's report.  In the whole binary a file is
+    opened for writing only by File::create / File::create_new (called or passed as a function value) - or through an
+    OpenOptions chain that truncates / insists on a new file and does not append; `--output-file` and `--cyborg` are
+    opened exactly that way."""
+    res.rule('C20.8', 0, floor=4, note='files are opened for writing only truncated or new: File::create[_new], or OpenOptions with truncate(true)/create_new(true) and no append')
+    created = []
+    for f in c.fns:
+        if f.mac and f.mac.startswith('derive('):
+            continue
+        names = [f.callee(t) for b, t in f.calls()]
+        # function values (`.map(File::create)`)
+        refs = []
+        for b in sorted(f.reach):
+            for s_ in f.blocks[b]['s']:
+                if s_['k'] == 'assign':
+                    for n in walk(f.rvalue_tree(s_['rv'])):
+                        if isinstance(n, tuple) and n and n[0] == 'fnref':
+                            refs.append((n[1], s_.get('line'), f.rvalue_tree(s_['rv'])))
+            t = f.blocks[b]['t']
+            if t['k'] == 'call':
+                for n in walk(f.call_tree(t)):
+                    if isinstance(n, tuple) and n and n[0] == 'fnref':
+                        refs.append((n[1], t.get('line'), f.call_tree(t)))
+        for b, t in f.calls():
+            n = f.callee(t)
+            if n in ('std::fs::File::create', 'std::fs::File::create_new'):
+                res.rule('C20.8', 1)
+                created.append(show(f.expand(f.call_tree(t))))
+            elif re.search(r'std::fs::(OpenOptions::open|File::options|File::open_buffered)$', n) or n == 'std::fs::OpenOptions::open':
+                res.rule('C20.8', 1)
+                chain = show(f.expand(f.operand_tree(t['args'][0])))
+                fresh = re.search(r'OpenOptions::(truncate|create_new) [^)]*\) 1\)', chain) or re.search(r'OpenOptions::(truncate|create_new) .* 1\)', chain)
+                writes = 'OpenOptions::write' in chain or 'OpenOptions::append' in chain or 'OpenOptions::create' in chain
+                if writes and (not fresh or 'OpenOptions::append' in chain):
+                    res.violation('C20.8', 'C20.8|open|%s' % f.qual, f, t.get('line'), 'a file is opened for writing without truncation (%s): what an earlier run left there would follow this run\'s report' % chain[:200])
+            elif re.search(r'std::fs::(write|copy|rename|hard_link)$', n):
+                res.rule('C20.8', 1)
+                res.violation('C20.8', 'C20.8|fs|%s' % f.qual, f, t.get('line'), 'the binary writes files through %s; report destinations are only File::create(..) handles given to the library printers' % n)
+        for n, ln, tree in refs:
+            n = strip_generics(n)
+            if n in ('std::fs::File::create', 'std::fs::File::create_new'):
+                res.rule('C20.8', 1)
+                created.append(show(f.expand(tree)))
+            elif re.search(r'std::fs::(OpenOptions::open|File::options|File::open)$', n):
+                res.rule('C20.8', 1)
+                res.violation('C20.8', 'C20.8|open-ref|%s' % f.qual, f, ln, '%s is used as a function value to open a file' % n)
+    for opt in ('output_file', 'cyborg'):
+        res.rule('C20.8', 1)
+        if not any(re.search(r'\.%s\b' % opt, x) for x in created):
+            res.violation('C20.8', 'C20.8|dest|%s' % opt, c.fn(MAIN), None, '--%s is not opened through File::create (seen: %s)' % (opt.replace('_', '-'), [x[:80] for x in created]))
+
+
 def run(tier, t0):
     res = harness.Result(PID)
     prog = program()
@@ -425,6 +478,7 @@ def run(tier, t0):
     exit_rules(res, prog, c)
     raw_dump(res, prog, c)
     options_reach_library(res, prog, c)
+    destinations(res, prog, c)
     # backing rule for the stats getters (C20.subscriptions)
     res.rule('C20.subscriptions', 0, floor=2, note='stat getters used by the CLI are the ones it subscribed to')
     if f is not None:
